@@ -176,6 +176,7 @@ def evaluate(mod, cases, workers, use_model=True):
         if f:
             failures.append((c, o, f))
     model_obs = [None] * len(cases)
+    mismatches_early = []      # (defined before the guarded block: used in the return value)
     model_error = None
     validated = 0
     if use_model and hasattr(mod, "model_op"):
@@ -183,7 +184,13 @@ def evaluate(mod, cases, workers, use_model=True):
         for i, (c, o) in enumerate(zip(cases, obs)):
             if isinstance(o, dict) and "harness_exception" in o:
                 continue
-            op = mod.model_op(c, o)
+            try:
+                op = mod.model_op(c, o)
+            except Exception as e:          # noqa: BLE001
+                # an observation the harness cannot even phrase for the model (e.g. a value of an impossible kind): the
+                # case counts as a correspondence mismatch, the real-code oracle above decides about the property
+                mismatches_early.append((c, o, None, f"model_op raised {type(e).__name__}: {str(e)[:120]}"))
+                op = None
             if op is not None:
                 idx.append(i)
                 if isinstance(op, list):       # several driver lines for one case
@@ -206,6 +213,7 @@ def evaluate(mod, cases, workers, use_model=True):
                         mismatches.append((cases[i], obs[i], mo, d))
             except Exception as e:
                 model_error = f"{type(e).__name__}: {str(e)[:400]}"
+    mismatches = mismatches_early + mismatches if use_model and hasattr(mod, "model_op") else mismatches
     return {"obs": obs, "model_obs": model_obs, "failures": failures, "mismatches": mismatches,
             "harness_errors": harness_errors, "model_error": model_error, "validated": validated,
             "t_real": round(t_real, 2), "t_model": round(t_model, 2)}
